@@ -28,9 +28,15 @@ EXN = ["IndexError", "ValueError", "TraitError", "TypeError", "KeyError", "Attri
 _classes = {}
 
 
+_FALSY = [None]        # set per case: the owner class defines __len__ -> 0 / __bool__ -> False
+
+
 def cls_for(key, make):
+    key = (key, _FALSY[0])
     if key not in _classes:
-        _classes[key] = type("H%d" % len(_classes), (HasTraits,), {"x": make()})
+        members = {"x": make()}
+        members.update(L.falsy_members(_FALSY[0]))
+        _classes[key] = type("H%d" % len(_classes), (HasTraits,), members)
     return _classes[key]
 
 
@@ -594,8 +600,11 @@ def main():
     p = dlib.load()
     fn = {"list": run_list, "set": run_set, "dict": run_dict, "nested": run_nested, "ndict": run_ndict,
           "deep": run_deep, "default": run_default}
+    def one(c):
+        _FALSY[0] = c.get("falsy")
+        return fn[c["kind"]](c)
     if isinstance(p, list):              # vlib.hist passes the bare list of cases; each names its kind
-        dlib.dump([fn[c["kind"]](c) for c in p])
+        dlib.dump([one(c) for c in p])
     elif p["mode"] == "mutators":
         dlib.dump(run_mutators())
     else:
